@@ -54,7 +54,6 @@ def worlds(tier):
         ws.append({"name": "digraph-n4", "n": 4, "pairs": "all", "order": [0, 1, 2, 3], "split": 8, "weight": 50})
         for p in ([0, 1, 2, 3, 4], [4, 0, 3, 1, 2]):
             ws.append({"name": "dag-n5-order" + "".join(map(str, p)), "n": 5, "pairs": "fwd", "order": p, "split": 7, "weight": 40})
-        ws.append({"name": "dag-n4-zero-weights", "n": 4, "pairs": "fwd", "order": [0, 1, 2, 3], "split": 4, "zero": True, "weight": 5})
         ws.append({"name": "dag-n6-le7", "n": 6, "pairs": "fwd", "order": [5, 0, 4, 1, 3, 2], "maxe": 7, "split": 8, "weight": 60,
                    "light": True})
     return ws
